@@ -48,9 +48,36 @@ def parseObs : Nat → List String → Option (List (Input.NetObs Float) × List
       some (⟨kk, vf⟩ :: r, rest)
   | _, _ => none
 
+def parseFloats : Nat → List String → Option (List Float × List String)
+  | 0, ts => some ([], ts)
+  | n + 1, v :: ts => do
+      let vf ← float? v
+      let (r, rest) ← parseFloats n ts
+      some (vf :: r, rest)
+  | _, _ => none
+
+def chunk (w : Nat) : Nat → List Float → List (List Float)
+  | 0, _ => []
+  | n + 1, l => l.take w :: chunk w n (l.drop w)
+
+def parseClusters : Nat → List String → Option (List (Input.NetCluster Float) × List String)
+  | 0, ts => some ([], ts)
+  | n + 1, no :: dm :: ts => do
+      let m ← no.toNat?
+      let d ← dm.toNat?
+      let (obs, r1) ← parseObs m ts
+      let (cv, r2) ← parseFloats (d * d) r1
+      let (r, rest) ← parseClusters n r2
+      some (⟨obs, d, fun i j => cv.getD (i * d + j) 0⟩ :: r, rest)
+  | _, _ => none
+
+def showCluster (c : Input.NetCluster Float) : String :=
+  " ".intercalate (c.obs.map fun o => showFloat o.value) ++ " : " ++
+    " ".intercalate ((List.range c.dim).flatMap fun i => (List.range c.dim).map fun j => showFloat (c.cov i j))
+
 def showNet (n : Input.Net Float) : String :=
   " ".intercalate (n.points.map fun p => showFloat p.x ++ " " ++ showFloat p.y)
-    ++ " | " ++ " ".intercalate (n.obs.map fun o => showFloat o.value)
+    ++ " | " ++ " ; ".intercalate (n.clusters.map showCluster)
 
 def step (_ : Unit) (line : String) : Unit × String :=
   match tokens line with
@@ -88,9 +115,9 @@ def step (_ : Unit) (line : String) : Unit × String :=
       | some (pts, no :: rest) =>
         match no.toNat? with
         | some m =>
-          match parseObs m rest with
-          | some (obs, []) =>
-            let net : Input.Net Float := ⟨cs, lh, false, pts, obs⟩
+          match parseClusters m rest with
+          | some (cls, []) =>
+            let net : Input.Net Float := ⟨cs, lh, false, pts, cls⟩
             let n1 := Input.removeInconsistency net
             let n2 := Input.removeInconsistency n1
             let n3 := Input.returnInconsistency n2
